@@ -1,8 +1,420 @@
+//go:build go1.22
+
+// Package zzsimetcd is simetcd: a simulated etcd v3 SERVER for deterministic
+// simulation. It speaks the real etcd gRPC API (etcdserverpb KV, Watch, Lease,
+// Cluster, Maintenance) and is registered on a real grpc.Server, so the real
+// etcd clientv3 (retry interceptor, watcher resume logic, lessor,
+// concurrency.Session / Mutex / STM) runs unmodified against it. It replaces
+// raft + bbolt by a single-copy model: it is a linearizable, durable, never
+// failing etcd by construction, and every fault is something the harness adds
+// through Hooks or by stopping/breaking things from outside.
+//
+// The sources live in /verif/harness/simetcd and are injected by check.json
+// "files" as the package github.com/megaease/easegress/pkg/cluster/zzsimetcd
+// (they need the etcd api and grpc modules, which are requirements of the
+// easegress module). The package imports nothing from verif/simkit: it only
+// uses package time (virtual inside a synctest bubble) and channels, and it has
+// NO select with several ready cases and no map iteration whose order leaks
+// (both would make runs irreproducible).
+//
+// Typical use inside a run (everything must be created inside the bubble):
+//
+//	st := zzsimetcd.NewStore()                 // durable state, survives restarts
+//	srv := zzsimetcd.NewServer(st)             // one "process incarnation"
+//	gs := grpc.NewServer(); srv.Register(gs)
+//	lis, _ := simnetNet.Listen("tcp", "etcd:2379"); go gs.Serve(lis)
+//	cli, _ := clientv3.New(clientv3.Config{Endpoints: []string{"etcd:2379"},
+//	    DialOptions: []grpc.DialOption{grpc.WithContextDialer(simnet dial)}})
+//	...
+//	cli.Close(); gs.Stop(); srv.Close(); st.Close(); simnetNet.Shutdown()
+//
+// Server stop/start = gs.Stop(); srv.Close(); later a new Server + grpc.Server
+// on a new listener around the SAME Store (optionally st.Compact(...) while it
+// is down, so that resumed watches are cancelled with the compact revision).
+//
+// MODELLED
+//   - MVCC: store revision starts at 1; per key create_revision, mod_revision,
+//     version, lease; one revision per Put / DeleteRange that deleted something /
+//     Txn that wrote / lease expiry or revoke that deleted keys; full history.
+//   - Range: single key, [key,end), end "\0" (>= key), prefix; revision (0 =
+//     current, future -> ErrFutureRev, below compaction -> ErrCompacted); limit +
+//     more; count (of the whole range) and count_only; keys_only; sort order and
+//     target; min/max mod/create revision filters.
+//   - Put: lease (must exist), prev_kv, ignore_value, ignore_lease.
+//   - DeleteRange: range conventions as Range, prev_kv, deleted count.
+//   - Txn: compares on VALUE / VERSION / CREATE / MOD / LEASE with EQUAL /
+//     NOT_EQUAL / GREATER / LESS, also over a range_end; missing key compares as
+//     the zero KeyValue, except VALUE which fails; success / failure ops incl.
+//     nested Txn; all writes share one revision; reads see the txn's own earlier
+//     writes; "duplicate key given in txn request" and "too many operations"
+//     (128) checks; a txn that would fail applies nothing.
+//   - Compact: moves the compaction revision (errors as etcd); history stays in
+//     Store.History() for oracles but is invisible to Range/Watch.
+//   - Leases: grant (chosen or given id), revoke, keep-alive stream, time-to-live
+//     (with keys), list; TTL runs on package time; expiry and revoke delete the
+//     attached keys in ONE revision (key order) and produce DELETE events.
+//   - Watch: one bidi stream carries many watchers; create with key / range /
+//     prefix, start_revision (0 = next revision; past = replay from history),
+//     filters NOPUT / NODELETE, prev_kv, progress_notify (ProgressInterval),
+//     explicit progress requests (watch id -1), cancel requests; watch ids are
+//     assigned per stream from 0; the created response carries the store revision
+//     at creation; all events of a revision arrive in one response; a watcher that
+//     lags is sent several revisions batched in one response (like etcd's unsynced
+//     watchers); a watcher whose next revision is below the compaction revision is
+//     cancelled with compact_revision (client: ErrCompacted).
+//   - Cluster.MemberList (one static member), Maintenance.Status / Alarm (none) /
+//     Defragment (no-op).
+//   - Faults (Hooks): per-RPC latency (sleep in Unary "before"), RPC refused
+//     before apply (return an error from "before"), reply lost after apply (error
+//     from "after"), slow watch delivery (sleep in WatchSend), watch stream broken
+//     with any status (error from WatchSend, or BreakWatchStreams), stream refused
+//     at open (StreamOpen).
+//
+// NOT MODELLED
+//   - Raft, several members, leader changes, learner/member reconfiguration
+//     (MemberAdd/... are Unimplemented), linearizable-vs-serializable difference
+//     (every read is linearizable), require-leader metadata.
+//   - Authentication / RBAC, TLS, quotas and alarms (NOSPACE never happens),
+//     request size limits, watch response fragmentation (fragment flag ignored:
+//     responses are never split), Snapshot / Hash / MoveLeader / Downgrade.
+//   - Lease checkpointing and the TTL extension real etcd grants after a leader
+//     change: a lease keeps expiring on the clock while the server is "down".
+//   - bbolt details: defragmentation effects, db size (Status reports constants).
+//   - Minimum lease TTL derived from election ticks (any TTL >= 1 s is accepted).
 package zzsimetcd
 
 import (
+	"context"
+	"io"
+	"sync"
+
 	pb "go.etcd.io/etcd/api/v3/etcdserverpb"
+	"go.etcd.io/etcd/api/v3/v3rpc/rpctypes"
 	"google.golang.org/grpc"
 )
 
-func Hello(s *grpc.Server) string { _ = pb.RangeRequest{}; return "hi" }
+// Phase tells a Unary hook where the RPC is.
+type Phase int
+
+const (
+	// Before the request is applied: an error refuses the RPC (nothing applied);
+	// sleeping here is request latency.
+	Before Phase = iota
+	// After the request was applied: an error loses the reply; sleeping here is
+	// response latency.
+	After
+)
+
+// Hooks are the fault-injection points. Every field may be nil. Hooks run on
+// the goroutine of the RPC and may sleep.
+type Hooks struct {
+	Unary      func(ctx context.Context, phase Phase, method string, req interface{}) error
+	StreamOpen func(ctx context.Context, method string) error
+	// WatchSend runs before a response with events (or a compaction cancel) is
+	// written to a watch stream. An error ends the stream with that error.
+	WatchSend func(streamID int64, resp *pb.WatchResponse) error
+}
+
+// Server is one incarnation of the etcd process around a Store.
+type Server struct {
+	pb.UnimplementedClusterServer
+	pb.UnimplementedMaintenanceServer
+
+	Store *Store
+	Hooks Hooks
+	// ProgressInterval is the period of progress notifications for watchers that
+	// asked for them (0 = 10 minutes, etcd's default).
+	ProgressInterval int64 // nanoseconds
+
+	mu         sync.Mutex
+	streams    map[int64]*watchStream
+	nextStream int64
+	closed     bool
+
+	// Counters (read them after the run; they are only ever incremented).
+	Stats struct {
+		Unary, WatchStreams, WatchCreates, WatchResponses, WatchEvents, CompactCancels, LeaseStreams int
+	}
+}
+
+// NewServer creates a server incarnation around st.
+func NewServer(st *Store) *Server {
+	return &Server{Store: st, streams: map[int64]*watchStream{}}
+}
+
+// Register registers all services on g.
+func (s *Server) Register(g *grpc.Server) {
+	pb.RegisterKVServer(g, s)
+	pb.RegisterWatchServer(g, s)
+	pb.RegisterLeaseServer(g, s)
+	pb.RegisterClusterServer(g, s)
+	pb.RegisterMaintenanceServer(g, s)
+}
+
+// Close ends every open watch stream (status Unavailable) and makes the server
+// refuse new streams. Call it together with grpc.Server.Stop.
+func (s *Server) Close() {
+	s.mu.Lock()
+	s.closed = true
+	s.mu.Unlock()
+	s.BreakWatchStreams(rpctypes.ErrGRPCStopped)
+}
+
+// BreakWatchStreams terminates every open watch stream with err (use a status
+// error; codes.Unavailable makes clientv3 resume transparently, most other
+// codes make it give up and report a cancelled watch to its user). It returns
+// the number of streams hit.
+func (s *Server) BreakWatchStreams(err error) int {
+	s.mu.Lock()
+	ids := make([]int64, 0, len(s.streams))
+	for id := range s.streams {
+		ids = append(ids, id)
+	}
+	s.mu.Unlock()
+	sortInt64(ids)
+	n := 0
+	for _, id := range ids {
+		s.mu.Lock()
+		ws := s.streams[id]
+		s.mu.Unlock()
+		if ws != nil {
+			ws.fail(err)
+			n++
+		}
+	}
+	return n
+}
+
+// OpenWatchStreams returns the number of open watch streams.
+func (s *Server) OpenWatchStreams() int {
+	s.mu.Lock()
+	defer s.mu.Unlock()
+	return len(s.streams)
+}
+
+func sortInt64(a []int64) {
+	for i := 1; i < len(a); i++ {
+		for j := i; j > 0 && a[j] < a[j-1]; j-- {
+			a[j], a[j-1] = a[j-1], a[j]
+		}
+	}
+}
+
+func (s *Server) unary(ctx context.Context, ph Phase, method string, req interface{}) error {
+	if ph == Before {
+		s.mu.Lock()
+		s.Stats.Unary++
+		s.mu.Unlock()
+	}
+	if h := s.Hooks.Unary; h != nil {
+		return h(ctx, ph, method, req)
+	}
+	return nil
+}
+
+// ---- KV ------------------------------------------------------------------------
+
+func (s *Server) Range(ctx context.Context, r *pb.RangeRequest) (*pb.RangeResponse, error) {
+	if err := s.unary(ctx, Before, "Range", r); err != nil {
+		return nil, err
+	}
+	resp, err := s.Store.Range(r)
+	if err != nil {
+		return nil, err
+	}
+	if err := s.unary(ctx, After, "Range", r); err != nil {
+		return nil, err
+	}
+	return resp, nil
+}
+
+func (s *Server) Put(ctx context.Context, r *pb.PutRequest) (*pb.PutResponse, error) {
+	if err := s.unary(ctx, Before, "Put", r); err != nil {
+		return nil, err
+	}
+	resp, err := s.Store.Put(r)
+	if err != nil {
+		return nil, err
+	}
+	if err := s.unary(ctx, After, "Put", r); err != nil {
+		return nil, err
+	}
+	return resp, nil
+}
+
+func (s *Server) DeleteRange(ctx context.Context, r *pb.DeleteRangeRequest) (*pb.DeleteRangeResponse, error) {
+	if err := s.unary(ctx, Before, "DeleteRange", r); err != nil {
+		return nil, err
+	}
+	resp, err := s.Store.DeleteRange(r)
+	if err != nil {
+		return nil, err
+	}
+	if err := s.unary(ctx, After, "DeleteRange", r); err != nil {
+		return nil, err
+	}
+	return resp, nil
+}
+
+func (s *Server) Txn(ctx context.Context, r *pb.TxnRequest) (*pb.TxnResponse, error) {
+	if err := s.unary(ctx, Before, "Txn", r); err != nil {
+		return nil, err
+	}
+	resp, err := s.Store.Txn(r)
+	if err != nil {
+		return nil, err
+	}
+	if err := s.unary(ctx, After, "Txn", r); err != nil {
+		return nil, err
+	}
+	return resp, nil
+}
+
+func (s *Server) Compact(ctx context.Context, r *pb.CompactionRequest) (*pb.CompactionResponse, error) {
+	if err := s.unary(ctx, Before, "Compact", r); err != nil {
+		return nil, err
+	}
+	resp, err := s.Store.Compact(r.Revision)
+	if err != nil {
+		return nil, err
+	}
+	if err := s.unary(ctx, After, "Compact", r); err != nil {
+		return nil, err
+	}
+	return resp, nil
+}
+
+// ---- Lease -----------------------------------------------------------------------
+
+func (s *Server) LeaseGrant(ctx context.Context, r *pb.LeaseGrantRequest) (*pb.LeaseGrantResponse, error) {
+	if err := s.unary(ctx, Before, "LeaseGrant", r); err != nil {
+		return nil, err
+	}
+	resp, err := s.Store.LeaseGrant(r)
+	if err != nil {
+		return nil, err
+	}
+	if err := s.unary(ctx, After, "LeaseGrant", r); err != nil {
+		return nil, err
+	}
+	return resp, nil
+}
+
+func (s *Server) LeaseRevoke(ctx context.Context, r *pb.LeaseRevokeRequest) (*pb.LeaseRevokeResponse, error) {
+	if err := s.unary(ctx, Before, "LeaseRevoke", r); err != nil {
+		return nil, err
+	}
+	resp, err := s.Store.LeaseRevoke(r)
+	if err != nil {
+		return nil, err
+	}
+	if err := s.unary(ctx, After, "LeaseRevoke", r); err != nil {
+		return nil, err
+	}
+	return resp, nil
+}
+
+func (s *Server) LeaseTimeToLive(ctx context.Context, r *pb.LeaseTimeToLiveRequest) (*pb.LeaseTimeToLiveResponse, error) {
+	if err := s.unary(ctx, Before, "LeaseTimeToLive", r); err != nil {
+		return nil, err
+	}
+	resp, err := s.Store.LeaseTimeToLive(r)
+	if err != nil {
+		return nil, err
+	}
+	if err := s.unary(ctx, After, "LeaseTimeToLive", r); err != nil {
+		return nil, err
+	}
+	return resp, nil
+}
+
+func (s *Server) LeaseLeases(ctx context.Context, r *pb.LeaseLeasesRequest) (*pb.LeaseLeasesResponse, error) {
+	if err := s.unary(ctx, Before, "LeaseLeases", r); err != nil {
+		return nil, err
+	}
+	resp := s.Store.LeaseLeases()
+	if err := s.unary(ctx, After, "LeaseLeases", r); err != nil {
+		return nil, err
+	}
+	return resp, nil
+}
+
+// LeaseKeepAlive answers every request on the stream with the renewed TTL.
+// The Unary hook is consulted per request with method "LeaseKeepAlive".
+func (s *Server) LeaseKeepAlive(stream pb.Lease_LeaseKeepAliveServer) error {
+	ctx := stream.Context()
+	if err := s.openStream(ctx, "LeaseKeepAlive"); err != nil {
+		return err
+	}
+	s.mu.Lock()
+	s.Stats.LeaseStreams++
+	s.mu.Unlock()
+	for {
+		req, err := stream.Recv()
+		if err == io.EOF {
+			return nil
+		}
+		if err != nil {
+			return err
+		}
+		if err := s.unary(ctx, Before, "LeaseKeepAlive", req); err != nil {
+			return err
+		}
+		resp := s.Store.LeaseRenew(req.ID)
+		if err := s.unary(ctx, After, "LeaseKeepAlive", req); err != nil {
+			return err
+		}
+		if err := stream.Send(resp); err != nil {
+			return err
+		}
+	}
+}
+
+func (s *Server) openStream(ctx context.Context, method string) error {
+	s.mu.Lock()
+	closed := s.closed
+	s.mu.Unlock()
+	if closed {
+		return rpctypes.ErrGRPCStopped
+	}
+	if h := s.Hooks.StreamOpen; h != nil {
+		return h(ctx, method)
+	}
+	return nil
+}
+
+// ---- Cluster / Maintenance ----------------------------------------------------------
+
+func (s *Server) MemberList(ctx context.Context, r *pb.MemberListRequest) (*pb.MemberListResponse, error) {
+	if err := s.unary(ctx, Before, "MemberList", r); err != nil {
+		return nil, err
+	}
+	st := s.Store
+	return &pb.MemberListResponse{Header: st.Header(st.Rev()), Members: []*pb.Member{{
+		ID: st.MemberID, Name: "simetcd", PeerURLs: []string{"http://etcd:2380"}, ClientURLs: []string{"http://etcd:2379"},
+	}}}, nil
+}
+
+func (s *Server) Status(ctx context.Context, r *pb.StatusRequest) (*pb.StatusResponse, error) {
+	if err := s.unary(ctx, Before, "Status", r); err != nil {
+		return nil, err
+	}
+	st := s.Store
+	rev := st.Rev()
+	return &pb.StatusResponse{Header: st.Header(rev), Version: "3.5.4", DbSize: 1 << 20, DbSizeInUse: 1 << 19, Leader: st.MemberID,
+		RaftIndex: uint64(rev) + 7, RaftTerm: st.RaftTerm, RaftAppliedIndex: uint64(rev) + 7}, nil
+}
+
+func (s *Server) Alarm(ctx context.Context, r *pb.AlarmRequest) (*pb.AlarmResponse, error) {
+	if err := s.unary(ctx, Before, "Alarm", r); err != nil {
+		return nil, err
+	}
+	return &pb.AlarmResponse{Header: s.Store.Header(s.Store.Rev())}, nil
+}
+
+func (s *Server) Defragment(ctx context.Context, r *pb.DefragmentRequest) (*pb.DefragmentResponse, error) {
+	if err := s.unary(ctx, Before, "Defragment", r); err != nil {
+		return nil, err
+	}
+	return &pb.DefragmentResponse{Header: s.Store.Header(s.Store.Rev())}, nil
+}
